@@ -83,6 +83,8 @@ INSTANCES = [
     inst('i64_static', 'int64_t', 0, 6, 3, tiers=EX, VF_EDGE=24),
     # encoded but not finishing (see NOTES.md): run with --tier experimental --only <name>
     inst('i32_adaptive', 'int32_t', 1, 4, 1, tiers=EX, VF_WAIT=1, VF_NLO=1, VF_L3=0, VF_CTX=0, timeout=1800),
+    dict(inst('i32_adaptive_m', 'int32_t', 1, 4, 1, tiers=EX, VF_WAIT=1, VF_NLO=1, VF_L3=0, VF_CTX=0, timeout=1800), models=['aligned_alloc']),
+    dict(stripe('i32_stripe_m', 'int32_t', 6, 2), models=['aligned_alloc']),
     inst('u64_adaptive_hi', 'uint64_t', 1, 4, 1, tiers=EX, VF_WAIT=1, VF_NLO=1, VF_L3=0, VF_CTX=0, VF_HI=1, timeout=1800),
     inst('i32_chunk', 'int32_t', 2, 6, 2, tiers=EX, VF_CTX=0, timeout=1800),
     stripe('i32_stripe', 'int32_t', 6, 2),
